@@ -218,8 +218,25 @@ def o_sec_roundtrip(case):
     return labels
 
 
+def _special_y_xs():
+    """abscissas of the curve points whose ORDINATE is tiny or just below p (y = 1, p - 1, 4, p - 4, ...): x^3 = y^2 - 7 has
+    either no or three solutions (p = 7 mod 9, so a cube root of a is a^((p+2)/9) when a is a cubic residue)"""
+    w = next(pow(g, (P - 1) // 3, P) for g in range(2, 50) if pow(g, (P - 1) // 3, P) != 1)
+    out = []
+    for y in range(1, 60):
+        a = (y * y - 7) % P
+        r = pow(a, (P + 2) // 9, P)
+        if pow(r, 3, P) == a:
+            out += [r, r * w % P, r * w * w % P]
+    return sorted(set(out))
+
+
+SPECIAL_Y_XS = _special_y_xs()
+
+
 def s_sec_roundtrip():
-    xs = st.one_of(st.integers(0, 2**32), st.integers(0, 2**248), boundary_ints(0, P - 1), patterned_256().map(lambda v: v % P))
+    xs = st.one_of(st.integers(0, 2**32), st.integers(0, 2**248), boundary_ints(0, P - 1), patterned_256().map(lambda v: v % P),
+                   st.sampled_from(SPECIAL_Y_XS))
     by_x = st.builds(lambda net, x0, odd, c: {"net": net, "x0": x0, "odd": odd, "compressed": c},
                      st.sampled_from(NET_CODES), xs, st.integers(0, 1), st.booleans())
     by_d = st.builds(lambda net, d, c: {"net": net, "d": d, "compressed": c}, st.sampled_from(NET_CODES), scalars(), st.booleans())
